@@ -44,8 +44,11 @@ View == vars
 Interesting == nev' # nev \/ rep' # "none"
 EmitTrans == Interesting => PrintT(<<"CASE", ToJson(h')>>)
 
-\* crash-free histories: only the final Close is an environment event
-NoCrashNext == GenNext /\ (nev' # nev => (nupd = MaxUpd /\ pc = "idle" /\ up))
+\* crash-free histories: only the final Close is an environment event; without a crash it makes no
+\* difference when an assignment reaches the disk, so every assignment is written through
+NoCrashNext == /\ GenNext
+               /\ (nev' # nev => (nupd = MaxUpd /\ pc = "idle" /\ up))
+               /\ \A i \in DOMAIN h' : h'[i].reach
 HistSpec == GenInit /\ [][NoCrashNext]_gvars
 EmitHist == (nev' # nev) => PrintT(<<"CASE", ToJson(h')>>)
 =============================================================================
